@@ -12,8 +12,9 @@ Streams (model = Model/C01.v evaluated by vm_compute; impl = the real aiocoap ob
                 or logged and dropped, nothing is raised (the anchors "transports drop only UnparsableMessage")
 The oracle is an independent reading of RFC 7252 section 3 / RFC 3629 written in this file (rfc_* functions below).
 """
-import struct
+import struct, sys
 import fw
+sys.set_int_max_str_digits(0)     # safety net only: integers above 2^200 are compared through zv() below
 from fw import gz, gbool, glist
 
 BIG = 64          # byte strings longer than this are compared as (length, hash) on both sides
@@ -36,6 +37,9 @@ def digest(b):
 def bv(b):
     b = list(b)
     return b if len(b) <= BIG else {"D": digest(b)}
+def zv(n):
+    """integers above 2^200 are shown as [0, floor(log2 n), n mod 1000000007] on both sides"""
+    return [n] if n < 2 ** 200 else [0, n.bit_length() - 1, n % 1000000007]
 
 KINDS = {"O": 0, "S": 1, "U": 2, "B": 3, "C": 4}
 CLASSNAMES = {"OpaqueOption": "O", "StringOption": "S", "UintOption": "U", "BlockOption": "B", "ContentFormatOption": "C"}
@@ -137,9 +141,9 @@ def rfc_interp(n, raw):
         return None if s is None else [n, 1, [], bv(s)]
     v = 0
     for x in raw: v = v * 256 + x
-    if f == "U": return [n, 2, [v], []]
-    if f == "C": return [n, 4, [v], []]
-    return [n, 3, [v // 16, (v // 8) % 2, v % 8], []]
+    if f == "U": return [n, 2, zv(v), []]
+    if f == "C": return [n, 4, zv(v), []]
+    return [n, 3, zv(v // 16) + [(v // 8) % 2, v % 8], []]
 def rfc_parse(data):
     """section 3 parser: canonical message view with typed options, "not-utf8" when the datagram is well-formed but a string
     option is not UTF-8, None when the datagram is not well-formed under section 3"""
@@ -208,9 +212,9 @@ def expected_view(m):
     for n, kind, val in sorted(m["opts"], key=lambda o: o[0]):
         if kind == "O": opts.append([n, 0, [], bv(bx(val))])
         elif kind == "S": opts.append([n, 1, [], bv(bx(val))])
-        elif kind == "U": opts.append([n, 2, [val], []])
-        elif kind == "C": opts.append([n, 4, [val], []])
-        else: opts.append([n, 3, [val[0], 1 if val[1] else 0, val[2]], []])
+        elif kind == "U": opts.append([n, 2, zv(val), []])
+        elif kind == "C": opts.append([n, 4, zv(val), []])
+        else: opts.append([n, 3, zv(val[0]) + [1 if val[1] else 0, val[2]], []])
     return [m["mtype"], m["code"], m["mid"], bv(bx(m["token"])), opts, bv(bx(m["payload"]))]
 def has_ext_max(view_or_msg_opts):
     """some option delta or value length is exactly 65804 (needs the raw lengths: computed on structured options)"""
@@ -228,9 +232,9 @@ def opt_view(o):
     n = int(o.number)
     if k == "O": return [n, 0, [], bv(o.value)]
     if k == "S": return [n, 1, [], bv([ord(c) for c in o.value])]
-    if k == "U": return [n, 2, [int(o.value)], []]
-    if k == "C": return [n, 4, [int(o.value)], []]
-    if k == "B": return [n, 3, [int(o.value.block_number), int(bool(o.value.more)), int(o.value.size_exponent)], []]
+    if k == "U": return [n, 2, zv(int(o.value)), []]
+    if k == "C": return [n, 4, zv(int(o.value)), []]
+    if k == "B": return [n, 3, zv(int(o.value.block_number)) + [int(bool(o.value.more)), int(o.value.size_exponent)], []]
     return [n, k]
 def msg_view(m):
     return [int(m.mtype), int(m.code), int(m.mid), bv(m.token), [opt_view(o) for o in m.opt.option_list()], bv(m.payload)]
@@ -431,7 +435,7 @@ def handcrafted_datagrams():
            H("40010001 72 00 05"), H("40010001 73 00 00 01"), H("40010001 C2 00 28"), H("40010001 D1 0A 00"), H("40010001 D3 0A 00 00 1E"),
            H("40010001 D4 0A 00 00 00 00"), H("40010001 B0 B0 B0"), H("40010001 B1 61 01 62"), H("40010001 B3 ED A0 80"), H("40010001 B3 EF BF BF"),
            H("40010001 B4 F4 90 80 80"), H("40010001 B4 F4 8F BF BF"), H("40010001 B2 C0 80"), H("40010001 B3 E0 80 80"), H("40010001 B4 F0 80 80 80"),
-           H("40010001 B1 80"), H("40010001 B4 F5 80 80 80"), H("40FF FFFF"), H("7FFF FFFF FF"), H("40010001 01 61 FF"), H("40010001 00 00 00 00")]
+           H("40010001 B1 80"), H("40010001 B4 F5 80 80 80"), H("40FF FFFF"), H("7FFF FFFF FF"), H("40010001 7D 1B" + "FF" * 40), H("40010001 DD 0A 1B 80" + "01" * 39), H("40010001 01 61 FF"), H("40010001 00 00 00 00")]
     return out
 
 FIELDS = ["mtype", "code", "mid", "token", "options", "payload"]
@@ -454,6 +458,7 @@ def view_to_message(v):
     out = []
     for n, k, ints, b in opts:
         if isinstance(b, dict): return None
+        if (k in (2, 4) and len(ints) != 1) or (k == 3 and len(ints) != 3): return None      # integer known only by its digest
         kind = "OSUBC"[k]
         out.append([n, kind, b if kind in "OS" else ints[0] if kind in "UC" else [ints[0], bool(ints[1]), ints[2]]])
     return {"mtype": t, "code": c, "mid": mid, "token": tok, "opts": out, "payload": pay}
@@ -466,7 +471,7 @@ class C01(fw.Property):
     model_imports = ["Verif.Gen.options_ext", "Verif.Gen.optiontypes_min", "Verif.Gen.optnum_table", "Verif.Model.C01Types",
                      "Verif.Model.C01Utf8", "Verif.Model.C01", "Verif.Model.C01Rfc"]
     quick_budget = 480
-    thorough_budget = 20000
+    thorough_budget = 15000
     design_ref = "DESIGN.md section 6"
     technique = ("Coq proofs (round trip, RFC-format equality, totality of parsing) over an executable model of Message/Options/optiontypes; extended-field "
                  "kernels, _to_minimum_bytes and the option format table regenerated from source on every run; differential correspondence of the "
